@@ -1,4 +1,7 @@
 import IgrisModel.C14.Model
+import IgrisModel.C14.Access   -- core Lean only: operator[] / front / back
+import IgrisModel.C14.Exc      -- core Lean only: the member functions with a throwing element constructor
+import IgrisModel.C14.Lemmas   -- core Lean only; for the reference machines `specStep` / `specSStep`
 open Igris.Proto Igris.C14
 
 inductive St where
@@ -6,7 +9,24 @@ inductive St where
   | sv (c : Cfg) (m : Mach)
   | ss (c : SCfg) (m : SRegs)
   | ua (trk : Bool) (K : Nat) (m : URegs)
+  | svH (c : Cfg) (sp : List (Option (List Elem)))   -- capacities ≥ 1000: the reference machine of `sv_history_refines`
+  | ssH (c : SCfg) (sp : List (Option (List Byte)))  --   (the slot model is quadratic in N), contents as a digest
   | dead
+
+/-- capacities from here on are run on the reference machines and printed as digests -/
+def hugeN : Nat := 1000
+
+def digestOf {α : Type} (f : α → Nat) (xs : List α) : Nat := xs.foldl (fun h x => (h * 31 + f x) % 4294967296) 7
+
+def showVecH (N : Nat) (r : Nat) : Option (List Elem) → String
+  | none => s!"{r}:-"
+  | some es => s!"{r}:{es.length}/{N - es.length}[#{hexOfNat 8 (digestOf (fun e => match e with | some v => v + 1 | none => 0) es)}]"
+
+/-- the register file of the reference machines is kept as data between two operations -/
+def regsOf {α : Type} (l : List (Option α)) : Nat → Option α := fun q => (l[q]?).join
+def regsTo {α : Type} (K : Nat) (f : Nat → Option α) : List (Option α) := (List.range K).map f
+
+def showBytesH (b : List Byte) : String := s!"#{hexOfNat 8 (digestOf (fun x => x.toNat + 1) b)}/{b.length}"
 
 def showFault : Fault → String
   | .oob => "fault oob"
@@ -127,11 +147,15 @@ def stepLine (st : St) (line : String) : St × String :=
   match w with
   | ["reset", "sv", tw, ty, n, k, _] =>
       match n.toNat?, k.toNat? with
-      | some n, some k => (.sv ⟨n, k, tw == "p", ty == "trk"⟩ Mach.init, "ok")
+      | some n, some k =>
+          if n ≥ hugeN then (.svH ⟨n, k, tw == "p", ty == "trk"⟩ [], "ok")
+          else (.sv ⟨n, k, tw == "p", ty == "trk"⟩ Mach.init, "ok")
       | _, _ => (.none, "bad-reset")
   | ["reset", "ss", tw, n, k, _] =>
       match n.toNat?, k.toNat? with
-      | some n, some k => (.ss ⟨n, k, tw == "p", junkOf n⟩ (fun _ => none), "ok")
+      | some n, some k =>
+          if n ≥ hugeN then (.ssH ⟨n, k, tw == "p", []⟩ [], "ok")
+          else (.ss ⟨n, k, tw == "p", junkOf n⟩ (fun _ => none), "ok")
       | _, _ => (.none, "bad-reset")
   | ["reset", "ua", ty, k] =>
       match k.toNat? with
@@ -143,6 +167,53 @@ def stepLine (st : St) (line : String) : St × String :=
     | .none => (.none, "no-case")
     | .dead => (.dead, "after-fault")
     | .sv c m =>
+        match w with
+        | "thr" :: k :: rest =>
+            -- `thr k <op>`: the (k+1)-th element construction of the operation throws
+            match k.toNat?, parseOp rest with
+            | some k, some op =>
+                if !c.trk then (st, "bad")   -- `int` has no constructor that could throw
+                else
+                match stepX c m op k with
+                | .error f => (.dead, showFault f)
+                | .ok (m', none, _) => (.sv c m', "bad")
+                | .ok (m', some ev, t) =>
+                    (.sv c m', s!"{showRegs c m'} | {showEvents c ev} | {toString (m'.nctor - m'.ndtor)} | {if t then "threw" else "done"}")
+            | _, _ => (st, "bad-op")
+        | ["at", r, i] =>
+            match r.toNat?, i.toNat? with
+            | some r, some i =>
+                match decide (r < c.K), m.regs r with
+                | true, some v =>
+                    if i < v.size then
+                      match v.at i with
+                      | .ok e => (st, showElem e)
+                      | .error f => (.dead, showFault f)
+                    else (st, "bad")
+                | _, _ => (st, "bad")
+            | _, _ => (st, "bad-op")
+        | [acc, r] =>
+            if acc == "front" || acc == "back" then
+              match r.toNat? with
+              | some r =>
+                  match decide (r < c.K), m.regs r with
+                  | true, some v =>
+                      if 0 < v.size then
+                        match (if acc == "front" then v.front else v.back) with
+                        | .ok e => (st, showElem e)
+                        | .error f => (.dead, showFault f)
+                      else (st, "bad")
+                  | _, _ => (st, "bad")
+              | none => (st, "bad-op")
+            else
+            match parseOp w with
+            | none => (st, "bad-op")
+            | some op =>
+              match step c m op with
+              | .error f => (.dead, showFault f)
+              | .ok (m', none) => (.sv c m', "bad")
+              | .ok (m', some ev) => (.sv c m', s!"{showRegs c m'} | {showEvents c ev} | {if c.trk then toString (m'.nctor - m'.ndtor) else "-"}")
+        | _ =>
         match parseOp w with
         | none => (st, "bad-op")
         | some op =>
@@ -150,6 +221,29 @@ def stepLine (st : St) (line : String) : St × String :=
           | .error f => (.dead, showFault f)
           | .ok (m', none) => (.sv c m', "bad")
           | .ok (m', some ev) => (.sv c m', s!"{showRegs c m'} | {showEvents c ev} | {if c.trk then toString (m'.nctor - m'.ndtor) else "-"}")
+    | .svH c sp =>
+        -- only operations inside the contract are generated for these capacities
+        match parseOp w with
+        | none => (st, "bad-op")
+        | some op =>
+          let sp' := regsTo c.K (specStep c (regsOf sp) op)
+          (.svH c sp', s!"{" ".intercalate ((List.range c.K).map fun r => showVecH c.N r ((sp'[r]?).join))} | - | -")
+    | .ssH c sp =>
+        match parseSOp w with
+        | none => (st, "bad-op")
+        | some op =>
+          match specSStep c (regsOf sp) op with
+          | (_, .bad) => (st, "bad")
+          | (sp', o) =>
+            let sp' := regsTo c.K sp'
+            let so := match o with
+              | .bytes b => showBytesH b
+              | o => showSOut o
+            let regs := " ".intercalate ((List.range c.K).map fun r =>
+              match (sp'[r]?).join with
+              | none => s!"{r}:-"
+              | some es => s!"{r}:{es.length}/{c.N - es.length}:{showBytesH es}")
+            (.ssH c sp', s!"{so} | {regs}")
     | .ua trk K m =>
         match parseUOp w with
         | none => (st, "bad-op")
